@@ -247,14 +247,22 @@ def run(tier, seed, replay):
     rng = random.Random(seed * 1000003 + 17)
     corpus = corpus_cases()
     cases = list(corpus)
-    cases += G.exhaustive(2 if tier == "quick" else 3)
-    cases += G.both_reps(rng, 4000 if tier == "quick" else 40000)
-    cases += G.random_cases(rng, 40000 if tier == "quick" else 400000)
+    if tier == "quick":
+        # sized for <= 3 min on an idle machine (~20 k cases): width 1 exhaustively, a seeded sample of
+        # the width-2 sweep; the full sweeps run in the thorough tier
+        cases += G.exhaustive(1)
+        cases += rng.sample(G.exhaustive(2), 5000)
+        cases += G.both_reps(rng, 2000)
+        cases += G.random_cases(rng, 10000)
+    else:
+        cases += G.exhaustive(3)
+        cases += G.both_reps(rng, 40000)
+        cases += G.random_cases(rng, 300000)
     impl = impl_eval(binary, cases)
     if okm:
         model = model_eval_ocaml(mbin, cases)
         # guard on the extracted code: the same function evaluated by the Coq kernel's VM on a sample
-        idx = sorted(set(list(range(len(corpus))) + rng.sample(range(len(cases)), 600 if tier == "quick" else 3000)))
+        idx = sorted(set(list(range(len(corpus))) + rng.sample(range(len(cases)), 300 if tier == "quick" else 3000)))
         guard = model_eval_coq([cases[i] for i in idx], "c17_guard")
         bad = [i for i, g in zip(idx, guard) if g != model[i]]
         res.obligation("extracted OCaml model = vm_compute inside Coq on %d sampled cases" % len(idx), not bad,
@@ -299,11 +307,12 @@ def run(tier, seed, replay):
         if i % (len(cases) // 5 + 1) == 0:
             res.sample({"case": G.case_wire(c), "impl": im, "ieee1800": spc})
     res.coverage["distinct_nontrivial"] = len(distinct)
-    res.coverage["rule"] = ("corpus; exhaustive: all ops x operand widths 1..%d x all 4-state values x signedness x context widths {max, max+1}; "
+    res.coverage["rule"] = ("corpus; exhaustive: all ops x operand widths 1..%d x all 4-state values x signedness x context widths {max, max+1} "
+                            "(quick: width 1 in full + 5000 sampled cases of the width-2 sweep); "
                             "both-representation pairs (the same numbers as U64 and as BigUint, width <= 64); random cases with widths 1..256 "
                             "biased to 63/64/65/127/128/129, corner values (0, 1, -1, MIN, MAX), X/Z operands, unsized all-bit literals, "
                             "shift amounts / exponents around the width, 64, 2^32, 2^64-1, 2^64; non-trivial = first operand not a bare 0/1 "
-                            "constant; distinct by serialised case" % (2 if tier == "quick" else 3))
+                            "constant; distinct by serialised case" % (1 if tier == "quick" else 3))
     res.coverage["ops_histogram"] = dict(ops)
     res.coverage["correspondence_mismatches"] = len(mism)
     res.coverage["ieee_deviation_classes"] = {k: len(v) for k, v in dev.items()}
